@@ -33,6 +33,12 @@ CLAIMED.update({
                 note="Trusted: z3, vx/rvsem.py (mv/xor/fmv.s with NaN boxing/fmv.d). Pools: 3 int + 2 float registers mixed (<=4/5 moves), thorough adds all graphs over 4 int and over 3 float registers."),
 })
 
+CLAIMED.update({
+    "C08": dict(cat="other", design="DESIGN.md §4 C08",
+                text="Unit-symbolic (M1): FloatData.__eq__/__hash__ (source level), the dataclass equality of IntAttr/IntegerAttr/IntegerType/FloatAttr/ArrayAttr and OperationInfo.__eq__/__hash__ run on symbolic payloads (doubles as 64-bit patterns: both zeros, every NaN payload); z3 decides reflexivity, symmetry, transitivity, 'equal <=> identical payload bits' and 'equal => equal hash' for all payloads.",
+                note="Trusted: z3; CPython hash(float)/hash(bytes) modelled by their documented contracts; composite hashes argued from component consistency. Int payload ranges [-8,8] quick / [-40,40] thorough where the C-level hash must concretise."),
+})
+
 NOT_APPLICABLE = {
     "C05": "custom assembly formats: the quantifier is over ~80 dialects' op definitions/format programs; no data dimension for a solver beyond what C04/C06 cover for leaves (DESIGN §5)",
     "C17": "pass x corpus-module cross product: deciding it means running each pair concretely; no symbolic dimension (DESIGN §5)",
